@@ -210,6 +210,15 @@ func c49RewriteWhy(a c49Action, s c49State) (out c49State, silent string) {
 			silent = "host-from-path:empty-first-segment"
 			return
 		}
+		for i := 0; i < len(segs[1]); i++ {
+			// a decoded segment with a control character, SP or DEL cannot be a host name; the
+			// docs do not say what the action does with it (oracle correction: the model used
+			// to demand that such a segment becomes the Host; C25 forbids exactly that)
+			if b := segs[1][i]; b <= ' ' || b == 0x7f {
+				silent = "host-from-path:segment-not-a-host"
+				return
+			}
+		}
 		out.Host, out.Path = segs[1], "/"+segs[2]
 	case "HOST_SUFFIX_REPLACE":
 		if _, _, err := net.SplitHostPort(s.Host); err == nil {
@@ -1080,7 +1089,7 @@ func c49Setup(r *vkit.Run) (*c49Envs, []c49Conf) {
 }
 
 func c49(r *vkit.Run) {
-	r.SetRule("action configurations: 31 rewrite (every command of mod_rewrite.md with 1-6 parameter sets, 2 multi-action rules), 30 header (REQ/RSP_HEADER_SET/ADD/DEL with literal values and the documented variables client_ip, cip, client_port, request_host, log_id, session_id, cluster; the doc's own example), 10 redirect (URL_SET, URL_FROM_QUERY, URL_PREFIX_ADD, SCHEME_SET x status); each its own product, loaded through the real rule loaders (each command first alone). Requests: seeded, parsed by bfe_http.ReadRequest: origin-/absolute-form, 6 hosts (one with port), paths of 0-5 segments biased to the configured prefixes incl. %20 %2F %41, empty segments, trailing slash; queries of 0-6 parts over 9 keys (incl. 'a b', prefix pairs a/ab, case pair a/A) with keys literal / first byte percent-encoded / all bytes lower-hex / '+' or %20 for space, parts k=v, k, k=, empty, =v, k=v;x=y, k=p=q; request/response header sets with repeated and mixed-case names. Observed: Host/target of bfe_http.Request.Write output, header maps, req.Redirect. Non-trivial = judged case whose documented effect changes something; distinct = whole (configuration, request). Not judged (docs silent): HOST_SUFFIX_REPLACE on host:port, HOST_SET_FROM_PATH_PREFIX with empty first segment, URL_FROM_QUERY with absent/empty/repeated key, PATH_PREFIX_ADD with prefixes not of the documented '/x/' shape (not generated), redirect response building in bfe_server. ADVERSARIAL REWRITE FAMILY (c49adv.go; own case stream): 52 further single-action configurations over all ten mod_rewrite.md actions (12 HOST_SUFFIX_REPLACE pairs incl. patterns with a border 'aa'/'a.a', replacement containing the pattern, identity, upper-case pattern; HOST_SET incl. IPv6 literal with port, trailing dot, upper case; PATH_SET incl. '//', dot segments, sub-delims, non-ASCII; PATH_PREFIX_ADD '/a/' '/a/a/' '/'; PATH_PREFIX_TRIM '/a' '/a/' '/a/a' '/aa' '/A' '/'...; QUERY_* over the key family a/aa/aaa/A) + 12 fixed chains (one action's output is the next one's input) + 16 seeded random sequences of 2-3 actions; each first loaded alone. The request is derived from the configured parameters, shapes round-robin so that each occurs for each configuration: Host ending with the pattern once / twice / twice adjacent / three times / equal to it / only in the middle / only at the start / overlapping ('aaa' for 'aa') / absent / other case / with port / trailing dot / IPv6 literal / already ending with the new suffix; path with the prefix once / twice / three times / equal / equal+'/' / not on a segment boundary / later only / behind '//' / other case / percent-encoded inside the prefix / encoded tail (%20 %2F) / dot segments / absent / root; HOST_SET_FROM_PATH_PREFIX paths with repeated, single, empty, port, IPv6, upper-case, encoded segments; queries with the configured key at start+middle+end, once, or only as part of longer keys (aa, xa, ax, A), literal or first byte percent-encoded, value containing 'k=1&k=2' encoded. Oracle as above (Host, decoded path, parsed query of the written request == model), signatures carry the shape. Model reads 'Replace suffix of host' as: host ends byte-for-byte with parameter 1 -> exactly that final occurrence becomes parameter 2, else unchanged (string suffix, no label-boundary requirement); 'Trim prefix from original path' as: removed once at the start, leading '/' kept, no other normalisation. Not judged in this family (docs silent), counted per reason: host with port; host ending with the pattern only case-insensitively or only modulo a trailing dot; percent-encoded octet inside/right behind the trimmed prefix region or in the first segment used as host; an encoded path read by a later action of a sequence; empty first segment. Not configured (raw-or-decoded meaning undecided): values needing escaping ('%', '?', '#', space), PATH_PREFIX_ADD prefixes not of the '/x/' shape. Inconclusive if a shape never occurred or a must-change shape was never judged with an effect." + c49RdRule)
+	r.SetRule("action configurations: 31 rewrite (every command of mod_rewrite.md with 1-6 parameter sets, 2 multi-action rules), 30 header (REQ/RSP_HEADER_SET/ADD/DEL with literal values and the documented variables client_ip, cip, client_port, request_host, log_id, session_id, cluster; the doc's own example), 10 redirect (URL_SET, URL_FROM_QUERY, URL_PREFIX_ADD, SCHEME_SET x status); each its own product, loaded through the real rule loaders (each command first alone). Requests: seeded, parsed by bfe_http.ReadRequest: origin-/absolute-form, 6 hosts (one with port), paths of 0-5 segments biased to the configured prefixes incl. %20 %2F %41, empty segments, trailing slash; queries of 0-6 parts over 9 keys (incl. 'a b', prefix pairs a/ab, case pair a/A) with keys literal / first byte percent-encoded / all bytes lower-hex / '+' or %20 for space, parts k=v, k, k=, empty, =v, k=v;x=y, k=p=q; request/response header sets with repeated and mixed-case names. Observed: Host/target of bfe_http.Request.Write output, header maps, req.Redirect. Non-trivial = judged case whose documented effect changes something; distinct = whole (configuration, request). Not judged (docs silent): HOST_SUFFIX_REPLACE on host:port, HOST_SET_FROM_PATH_PREFIX with empty first segment or a decoded first segment containing a control character / SP / DEL (not a host name), URL_FROM_QUERY with absent/empty/repeated key, PATH_PREFIX_ADD with prefixes not of the documented '/x/' shape (not generated), redirect response building in bfe_server. ADVERSARIAL REWRITE FAMILY (c49adv.go; own case stream): 52 further single-action configurations over all ten mod_rewrite.md actions (12 HOST_SUFFIX_REPLACE pairs incl. patterns with a border 'aa'/'a.a', replacement containing the pattern, identity, upper-case pattern; HOST_SET incl. IPv6 literal with port, trailing dot, upper case; PATH_SET incl. '//', dot segments, sub-delims, non-ASCII; PATH_PREFIX_ADD '/a/' '/a/a/' '/'; PATH_PREFIX_TRIM '/a' '/a/' '/a/a' '/aa' '/A' '/'...; QUERY_* over the key family a/aa/aaa/A) + 12 fixed chains (one action's output is the next one's input) + 16 seeded random sequences of 2-3 actions; each first loaded alone. The request is derived from the configured parameters, shapes round-robin so that each occurs for each configuration: Host ending with the pattern once / twice / twice adjacent / three times / equal to it / only in the middle / only at the start / overlapping ('aaa' for 'aa') / absent / other case / with port / trailing dot / IPv6 literal / already ending with the new suffix; path with the prefix once / twice / three times / equal / equal+'/' / not on a segment boundary / later only / behind '//' / other case / percent-encoded inside the prefix / encoded tail (%20 %2F) / dot segments / absent / root; HOST_SET_FROM_PATH_PREFIX paths with repeated, single, empty, port, IPv6, upper-case, encoded segments; queries with the configured key at start+middle+end, once, or only as part of longer keys (aa, xa, ax, A), literal or first byte percent-encoded, value containing 'k=1&k=2' encoded. Oracle as above (Host, decoded path, parsed query of the written request == model), signatures carry the shape. Model reads 'Replace suffix of host' as: host ends byte-for-byte with parameter 1 -> exactly that final occurrence becomes parameter 2, else unchanged (string suffix, no label-boundary requirement); 'Trim prefix from original path' as: removed once at the start, leading '/' kept, no other normalisation. Not judged in this family (docs silent), counted per reason: host with port; host ending with the pattern only case-insensitively or only modulo a trailing dot; percent-encoded octet inside/right behind the trimmed prefix region or in the first segment used as host; an encoded path read by a later action of a sequence; empty first segment. Not configured (raw-or-decoded meaning undecided): values needing escaping ('%', '?', '#', space), PATH_PREFIX_ADD prefixes not of the '/x/' shape. Inconclusive if a shape never occurred or a must-change shape was never judged with an effect." + c49RdRule)
 	r.Assume("net/url QueryUnescape/PathUnescape (standard library) define the decoding of the outgoing query and path")
 	r.Assume("condition default_t() is correct")
 
